@@ -131,7 +131,7 @@ func randPolicy(ids []ID, maxKind int) *ad.Policy {
 			}
 			// CNF by maximal unqualified sets: an antichain that does not contain the full set and covers... pick 2-3 random proper subsets, keep maximal ones
 			var mus [][]uint64
-			cnt := 2 + rng.IntN(2)
+			cnt := 2 + rng.IntN(3)
 			for len(mus) < cnt {
 				s := []uint64{}
 				for _, x := range u {
@@ -155,7 +155,7 @@ func randPolicy(ids []ID, maxKind int) *ad.Policy {
 			if len(cover) != n {
 				continue
 			}
-			// a party contained in every maximal unqualified set is redundant and owns no MSP row: not a policy the library deals for
+			// a party contained in every maximal unqualified set is redundant (never needed, learns nothing)
 			redundant := false
 			for _, x := range u {
 				inAll := true
@@ -168,7 +168,7 @@ func randPolicy(ids []ID, maxKind int) *ad.Policy {
 					redundant = true
 				}
 			}
-			if redundant {
+			if redundant && rng.IntN(3) != 0 { // such a holder owns one all-zero row (identity public share); kept in a third of the draws
 				continue
 			}
 			return &ad.Policy{Kind: "cnf", IDs: u, MUS: mus}
@@ -459,6 +459,19 @@ func doMix(cur, old *epoch, s []ID, useOld map[ID]bool) {
 	w.Emit(ev)
 }
 
+// listed returns the party's own access structure object, built from its own listing of the (same) policy: every party of a
+// real deployment builds the structure from its own configuration, and equal structures must behave equally whatever the order
+// in which shareholders and sets happen to be listed.
+var listRng = tr.PRand(77, 3)
+
+func listed(pol *ad.Policy, fallback accessstructures.Monotone) accessstructures.Monotone {
+	as, err := pol.BuildListed(func(n int) []int { return listRng.Perm(n) })
+	if err != nil {
+		return fallback
+	}
+	return as
+}
+
 // degenerateH projects one specific refusal: the second Pedersen generator that Gennaro's constructor hashes out of the
 // session transcript came out as g or as the identity (probability 2/q: visible on the small toy groups only).
 func degenerateH(err error) bool {
@@ -487,7 +500,7 @@ func doDKG(which string, pol *ad.Policy) *epoch {
 	for _, id := range hs {
 		switch which {
 		case "gennaro":
-			g, err := ad.NewGennaroParty(ctxs[id], as, fiatshamir.Name, reader())
+			g, err := ad.NewGennaroParty(ctxs[id], listed(pol, as), fiatshamir.Name, reader())
 			if err != nil {
 				w.Emit(map[string]any{"a": "dealRefused", "pol": pol, "err": tr.ErrClass(err), "degenH": degenerateH(err)})
 				return nil
@@ -495,7 +508,7 @@ func doDKG(which string, pol *ad.Policy) *epoch {
 			ps = append(ps, g)
 			outOf[id] = func() *ad.Shard { return g.Out }
 		case "canetti":
-			c, err := ad.NewCanettiParty(ctxs[id], as, reader())
+			c, err := ad.NewCanettiParty(ctxs[id], listed(pol, as), reader())
 			if err != nil {
 				w.Emit(map[string]any{"a": "dealRefused", "pol": pol, "err": tr.ErrClass(err), "degenH": false})
 				return nil
@@ -657,9 +670,9 @@ func doDKGRunner(which string, pol *ad.Policy) *epoch {
 	}
 	shards, err := runRunners(hs, func(id ID) (network.Runner[*mpc.BaseShard[ad.G, ad.S]], error) {
 		if which == "gennaro" {
-			return gennaro.NewRunner(ctxs[id], toy.NewGroup(), as, fiatshamir.Name, reader())
+			return gennaro.NewRunner(ctxs[id], toy.NewGroup(), listed(pol, as), fiatshamir.Name, reader())
 		}
-		return canetti.NewRunner(ctxs[id], as, toy.NewGroup(), reader())
+		return canetti.NewRunner(ctxs[id], listed(pol, as), toy.NewGroup(), reader())
 	})
 	ev := map[string]any{"a": "dkgRun", "proto": which, "pol": pol, "ok": err == nil, "err": tr.ErrClass(err), "degenH": degenerateH(err), "shards": map[string]any{}, "certs": []ad.Cert{}}
 	if err == nil {
